@@ -38,6 +38,20 @@ register('C13',
          'DESIGN.md 5/C13')
 
 
+register('C14',
+         'BerlekampMassey.tla: TLC proves on every sequence of length <= 9 (quick; <= 12 thorough) and at every prefix that the '
+         'Berlekamp-Massey machine\'s register length equals the brute-force shortest LFSR (definition: exists taps), that its '
+         'connection polynomial generates the prefix, and that the census of linear complexities equals the closed form. The '
+         'three implementations (C++ compiled from /repo with the carry-less-multiplication path, C++ portable path, Python) are '
+         'run on every sequence of length 0..12 (0..16 thorough), on class sequences at every 64-bit boundary up to 1100 bits and '
+         'TLC recomputes the linear complexity of every recorded sequence with the verified machine; LfsrCount/LfsrLogProbability '
+         'on the full grid n <= 64 are recomputed by TLC.',
+         'Trusted: TLC, ctypes + 3-line extern "C" wrapper, g++. The CLMUL variant is built with -mpclmul -D__CLMUL__ because gcc '
+         'does not define the macro the source tests for. Sequences longer than 1100 bits: implementations compared with each other only.',
+         'TLA+ spec (BerlekampMassey.tla) model-checked against the brute-force definition with TLC + exhaustive/boundary replay into the three implementations + TLC trace validation',
+         'DESIGN.md 5/C14')
+
+
 def main():
   props = [json.loads(l)['id'] for l in open(os.path.join(HOME, 'properties.jsonl'))]
   checks = []
